@@ -173,7 +173,11 @@ func (u *URL) String() string {
 		param := "filter=" + url.QueryEscape(string(mf))
 		urlParams = append(urlParams, param)
 	} else if u.Params.FilterLabel != "" {
-		urlParams = append(urlParams, "filter="+url.QueryEscape(u.Params.FilterLabel))
+		// The label is the content of a JSON string (see NewSimpleURL).
+		label, _ := json.Marshal(u.Params.FilterLabel)
+		label = label[1 : len(label)-1]
+
+		urlParams = append(urlParams, "filter="+url.QueryEscape(string(label)))
 	}
 
 	// Pagination
